@@ -62,11 +62,24 @@ impl ItemDefinitionContextEvaluator {
   /// Evaluates a context from item definition with specified type reference name.
   pub fn eval(&self, type_ref: &str, name: &Name, ctx: &mut FeelContext) -> FeelType {
     if let Some(evaluator) = self.evaluators.get(type_ref) {
-      evaluator(name, ctx, self)
+      // a nested reference to an item definition that is just being evaluated has the type `Any`
+      if EVALUATED_TYPE_REFS.with(|type_refs| type_refs.borrow().iter().any(|evaluated| evaluated == type_ref)) {
+        ctx.set_entry(name, Value::FeelType(FeelType::Any));
+        return FeelType::Any;
+      }
+      EVALUATED_TYPE_REFS.with(|type_refs| type_refs.borrow_mut().push(type_ref.to_string()));
+      let feel_type = evaluator(name, ctx, self);
+      EVALUATED_TYPE_REFS.with(|type_refs| type_refs.borrow_mut().pop());
+      feel_type
     } else {
       FeelType::Any
     }
   }
+}
+
+thread_local! {
+  /// Names of item definitions whose contexts are just being evaluated.
+  static EVALUATED_TYPE_REFS: std::cell::RefCell<Vec<String>> = std::cell::RefCell::new(vec![]);
 }
 
 ///
